@@ -114,15 +114,19 @@ def bound_consistency_algorithm(
             shr_domain_idx = prop_indices[var_idx]
             events = 0
             shr_domain_min = prop_domains[var_idx, MIN] - prop_offsets[var_idx, 0]  # because of vertical shape
-            if shr_domains_stack[top, shr_domain_idx, MIN] != shr_domain_min:
+            # several variables of the propagator may share this domain: the bounds are only ever tightened
+            if shr_domains_stack[top, shr_domain_idx, MIN] < shr_domain_min:
                 shr_domains_stack[top, shr_domain_idx, MIN] = shr_domain_min
                 events |= EVENT_MASK_MIN
             shr_domain_max = prop_domains[var_idx, MAX] - prop_offsets[var_idx, 0]  # because of vertical shape
-            if shr_domains_stack[top, shr_domain_idx, MAX] != shr_domain_max:
+            if shr_domains_stack[top, shr_domain_idx, MAX] > shr_domain_max:
                 shr_domains_stack[top, shr_domain_idx, MAX] = shr_domain_max
                 events |= EVENT_MASK_MAX
             if events != 0:
-                if shr_domain_min == shr_domain_max:
+                if shr_domains_stack[top, shr_domain_idx, MIN] > shr_domains_stack[top, shr_domain_idx, MAX]:
+                    statistics[STATS_IDX_PROPAGATOR_INCONSISTENCY_NB] += 1
+                    return PROBLEM_INCONSISTENT
+                if shr_domains_stack[top, shr_domain_idx, MIN] == shr_domains_stack[top, shr_domain_idx, MAX]:
                     events |= EVENT_MASK_GROUND
                 shr_domains_changes = True
                 add_propagators(
